@@ -74,3 +74,16 @@ def proxy_intolerance(exc):
     such a path, so count it -- the runner turns a non-zero count into a harness error"""
     if "returned non-string" in str(exc):
         COUNTS["dropped"] += 1
+
+
+def decode(code, n, base):
+    """code -> n digits in 0..base-1.  A bijection on 0..base**n-1 (affine map with a multiplier coprime to base**n), so every
+    combination inside the bound stays reachable, but consecutive codes - the order in which CrossHair enumerates a realised
+    integer - give unrelated combinations instead of combinations that differ only in the last digit."""
+    m = base ** n
+    x = (code * 2654435761 + 12345) % m
+    out = []
+    for _ in range(n):
+        out.append(x % base)
+        x //= base
+    return out
